@@ -44,6 +44,7 @@ def run(an: Analysis, rep):
     rep.run(r074, an, rep)
     rep.run(r075, an, rep, enc, cdec)
     rep.run(r076, an, rep, enc, defs)
+    rep.run(r077, an, rep, enc)
     rep.stats.update(an.stats([an.interp("to_json")[0], an.interp("from_json")[0]]))
 
 
@@ -75,6 +76,21 @@ def _schema_constant_tags(defs) -> List[Tuple[frozenset, str]]:
     return out
 
 
+CODEC_INVERSES = {
+    "base64.b64encode": {"base64.b64decode", "base64.standard_b64decode"},
+    "base64.standard_b64encode": {"base64.b64decode", "base64.standard_b64decode"},
+    "base64.urlsafe_b64encode": {"base64.urlsafe_b64decode"},
+    "base64.b32encode": {"base64.b32decode"},
+    "base64.b16encode": {"base64.b16decode"},
+    "base64.b85encode": {"base64.b85decode"},
+    "base64.a85encode": {"base64.a85decode"},
+    "base64.encodebytes": {"base64.decodebytes", "base64.b64decode"},
+    "binascii.hexlify": {"binascii.unhexlify", "bytes.fromhex"},
+    "binascii.b2a_base64": {"binascii.a2b_base64", "base64.b64decode"},
+    "bytes.hex": {"bytes.fromhex", "binascii.unhexlify"},
+}
+
+
 def r071(an, rep, enc: FunctionInfo, cdec: FunctionInfo, defs):
     tg = an.tg
     etags = {}
@@ -101,6 +117,41 @@ def r071(an, rep, enc: FunctionInfo, cdec: FunctionInfo, defs):
     for k, read, n in dtags:
         ok = any(k in s for s in etags)
         rep.add("R07.1", f"decoder key {k!r}::encoder", ok, loc(cdec.module, n), "the encoder emits this tag" if ok else f"decoder tests key {k!r}, which the encoder never emits", nontrivial=False)
+    # ---- library codecs come in inverse pairs: what the encoder arm of a tag applies, the decoder arm of that tag undoes
+    def ext_codecs(mod, fn, node):
+        out = set()
+        for c in ast.walk(node):
+            if isinstance(c, ast.Call):
+                if isinstance(c.func, ast.Name):
+                    r = an.prog.resolve_global(mod, c.func.id, fn)
+                    if r and r[0] == "ext":
+                        out.add(r[1])
+                elif isinstance(c.func, ast.Attribute):
+                    base = c.func.value
+                    if isinstance(base, ast.Name):
+                        r = an.prog.resolve_global(mod, base.id, fn)
+                        if r and r[0] == "ext":
+                            out.add(f"{r[1]}.{c.func.attr}")
+                    if c.func.attr in ("hex", "fromhex"):
+                        out.add("bytes." + c.func.attr)
+        return out
+    for s_, node in sorted(etags.items(), key=lambda x: sorted(x[0])):
+        encs = {c for c in ext_codecs(enc.module, enc, node) if c in CODEC_INVERSES}
+        if not encs:
+            continue
+        name = "+".join(sorted(s_))
+        arms = [(k, read, n) for k, read, n in dtags if k in s_]
+        if not arms:
+            continue
+        decs = set()
+        for k, read, n in arms:
+            decs |= ext_codecs(cdec.module, cdec, n)
+        for e in sorted(encs):
+            ok = bool(decs & CODEC_INVERSES[e])
+            rep.add("R07.1", f"tag {{{name}}}::{e} is undone by its inverse", ok, loc(cdec.module, arms[0][2]),
+                    f"encoder applies {e}, decoder applies {sorted(decs & CODEC_INVERSES[e])}" if ok else
+                    f"the encoder writes this tag with {e} but the decoder arm applies {sorted(decs) or 'no library codec'}, not its inverse ({sorted(CODEC_INVERSES[e])}): values whose "
+                    f"text differs between the two alphabets / formats come back changed (e.g. bytes whose base64 text contains '+' or '/')")
     # ---- the complex arm of the decoder rebuilds the value with complex(real part, imaginary part)
     for k, read, n in dtags:
         if k in ("real", "imag") or {"real", "imag"} <= read:
@@ -630,6 +681,15 @@ def r074(an, rep):
                 ok, why = False, f"float default {d!r}: -0.0 == 0.0 is hidden and decoded as the default"
             elif isinstance(d, tuple) and d and d[0] == "<all-defaults>":
                 why = f"default {d[1]}() compares equal only to an all-default {d[1]}"
+                dc = next((c for c in an.prog.all_classes() if c.name == d[1]), None)
+                if dc is not None:
+                    loose = [fl.name for fl in dc.fields if fl.flags.get("compare", True) is False]
+                    if loose:
+                        ok = False
+                        why = (f"default {d[1]}() equals every {d[1]} whatever its {loose} (declared compare=False): such a value is hidden as 'the default' and decoded "
+                               f"as {d[1]}() - e.g. {d[1]}(7) vanishes from the document and re-encodes with a different operand byte")
+                    elif "__eq__" in dc.methods:
+                        raise AnalysisError(f"{dc.qual}: custom __eq__ on a class used as a hidden default - cannot decide which values equal the default")
             else:
                 why = f"default {d!r}"
             rep.add("R07.4", f"{ci.qual}.{f.name}", ok, loc(ci.module, f.node), why, nontrivial=not isinstance(d, type(None)))
@@ -655,3 +715,52 @@ def r075(an, rep, enc, cdec):
                     rep.add("R07.5", f"{cdec.qual}::{norm_src(c)} of unbounded decimal text", False, loc(cdec.module, c),
                             "decimal parsing of an arbitrarily long digit string: raises ValueError beyond 4300 digits on interpreters with the int/str digit limit, "
                             "so a document written on an older interpreter does not load")
+
+
+# ----------------------------------------------------------------------------- R07.7
+def r077(an, rep, enc: FunctionInfo):
+    """No ordering of encoded values: `sorted` / `min` / `max` / `.sort()` without a key over the results of the encoder (which are dicts
+    for bytes, large ints, inf, Ellipsis, nested sets; None for None) or over constants of several types raises TypeError
+    (`dict < dict`, `None < str`) - to_json_data fails on a valid program such as `x in {b'GET', b'POST'}`."""
+    rep.rule("R07.7", "encoded values and mixed-type constants are never ordered", 0)
+    it, _ = an.interp("to_json")
+    enc_can_return_dict = any(isinstance(r.value, (ast.Dict, ast.DictComp)) for r in returns_of(enc.node.body))
+    n = 0
+    for f in an.closure("to_json"):
+        for c in ast.walk(f.node):
+            if not isinstance(c, ast.Call):
+                continue
+            if isinstance(c.func, ast.Name) and c.func.id in ("sorted", "min", "max") and c.args:
+                arg = c.args[0]
+            elif isinstance(c.func, ast.Attribute) and c.func.attr == "sort":
+                arg = c.func.value
+            else:
+                continue
+            if any(k.arg == "key" for k in c.keywords):
+                continue
+            n += 1
+            # elements produced by the encoder?
+            prod = None
+            if isinstance(arg, ast.Call) and isinstance(arg.func, ast.Name) and arg.func.id == "map" and len(arg.args) == 2 and isinstance(arg.args[0], ast.Name) and arg.args[0].id == enc.name:
+                prod = enc.name
+            if isinstance(arg, (ast.GeneratorExp, ast.ListComp, ast.SetComp)) and isinstance(arg.elt, ast.Call) and isinstance(arg.elt.func, ast.Name) and arg.elt.func.id == enc.name:
+                prod = enc.name
+            mixed = None
+            if prod is None:
+                leaves = set()
+                for a in it.elements(it.value_at(arg)):
+                    if a[0] == "src":
+                        t = an.tg.unfold_rec(it.src_type(a))
+                        leaves |= {y[1] for y in an.tg.leaves_in(t) if y[0] == "leaf"} | {"object:" + y[1] for y in an.tg.leaves_in(t) if y[0] == "class"}
+                    elif a[0] == "obj":
+                        leaves.add("object:" + it.obj_kind(a))
+                groups = {("num" if x in ("int", "float", "bool") else x) for x in leaves}
+                if len(groups) > 1 or any(g.startswith("object:") or g in ("None", "complex") for g in groups):
+                    mixed = sorted(leaves)
+            bad = (prod is not None and enc_can_return_dict) or mixed is not None
+            rep.add("R07.7", f"{f.qual}::{norm_src(c)[:50]}", not bad, loc(f.module, c),
+                    "elements of one orderable type" if not bad else
+                    (f"`{norm_src(c)[:70]}` orders the results of {prod}, which are dicts for every tagged constant (bytes, huge ints, inf/nan, Ellipsis, nested frozensets) and None for "
+                     f"None: `dict < dict` raises TypeError, so to_json_data fails on a valid program (e.g. `x in {{b'GET', b'POST'}}`)" if prod else
+                     f"`{norm_src(c)[:70]}` orders values that may be of types {mixed}: comparison between them raises TypeError"))
+    rep.add("R07.7", "orderings examined", True, "code_data/", f"{n} key-less sorted/min/max/.sort() call(s) in the to_json closure", nontrivial=False)
